@@ -137,6 +137,9 @@ def g_vectors():
         goals += [(f"R Rt = I[{i}{j}]", E(RRt[i, j]) != (1 if i == j else 0)) for i in range(3) for j in range(i, 3)]
         goals += [("det R = 1", E(det3(R)) != 1)]
         goals += [("control: v1n @ R = -v2n (must be sat)", E(out[0]) != -E(bn[0]))]
+        # conditioning of the Rodrigues formula: its denominator 1 + c must stay away from zero on this path (the nearly-opposite case belongs to the other
+        # branch).  A model of the negation is a pair of nearly opposite vectors; the float64 replay decides whether the rotation is really lost there.
+        goals += [("conditioning: 1 + v1n.v2n >= 1e-12 on the Rodrigues path", E(1 + an @ bn) < sr.lift(1e-12))]
     else:              # antiparallel branch: exactly one pass of the loop, result is the product of the two recursive results
         goals += [("antiparallel: exactly two recursive calls", z3.BoolVal(len(CALLS) != 2))]
         P = CALLS[0][2] @ CALLS[1][2]
